@@ -88,6 +88,9 @@ type c10xCase struct {
 	UserInit *c10UserInit `json:"userInit,omitempty"`
 	Opts     []c10Opt     `json:"opts"`
 	Nodes    []c10xNode   `json:"nodes"`
+	// the resumed call passes a WithStateModifier that returns an error for the called graph
+	// ("top") or for the nested graph with this key: the restore of the checkpoint is refused
+	ResumeFail string `json:"resumeFail,omitempty"`
 }
 
 type c10xState struct{ N int }
@@ -470,6 +473,16 @@ func c10xExec(c *c10xCase, withHandlers bool) (runs []c10xRunObs, build string) 
 			}
 			opts = append(opts, c10CallOpts(&c10Compose{Opts: c.Opts}, rec)...)
 		}
+		if run == 1 && c.ResumeFail != "" {
+			refuse := c.ResumeFail
+			opts = append(opts, compose.WithStateModifier(func(_ context.Context, path compose.NodePath, _ any) error {
+				p := path.GetPath()
+				if (refuse == "top" && len(p) == 0) || (len(p) == 1 && p[0] == refuse) {
+					return errors.New("c10: the saved state is refused")
+				}
+				return nil
+			}))
+		}
 		o := c10xRunObs{Units: map[string][][2]int{}, Payloads: map[string][]string{}}
 		var runErr error
 		finished := false
@@ -673,6 +686,14 @@ func c10xOne(ctx *vh.Ctx, c *c10xCase) error {
 	walk(c.Nodes)
 	tag := fmt.Sprintf("%s/%s/%s", c.Family, c.Mode, c.Paradigm)
 	ctx.Res.Dist("kind=runs")
+	if c.ResumeFail != "" {
+		which := "nested"
+		if c.ResumeFail == "top" {
+			which = "top"
+		}
+		ctx.Res.Dist("runs.refusedResume=" + which)
+		tag += "/refuse-" + which
+	}
 	ctx.Res.Dist("family=runs:" + tag)
 	ctx.Res.Dist(fmt.Sprintf("runs.interrupters=%d", nIntr))
 	capN := func(n int) string {
@@ -707,6 +728,9 @@ func c10xOne(ctx *vh.Ctx, c *c10xCase) error {
 		phase := "first"
 		if !mr.First {
 			phase = "resumed"
+			if c.ResumeFail != "" {
+				phase = "refused-resume"
+			}
 		}
 		if ri >= len(impl) {
 			dis("outcome", phase, fmt.Sprintf("the %s run did not take place: the previous run ended with %q", phase, impl[len(impl)-1].Class))
@@ -761,7 +785,7 @@ func c10xOne(ctx *vh.Ctx, c *c10xCase) error {
 					continue
 				}
 				what := "unpaired"
-				if mu, ok := modelOf[info]; ok && mu.Intr {
+				if mu, ok := modelOf[info]; ok && mu.Intr && phase != "refused-resume" {
 					what = "unpaired-on-interrupt"
 				}
 				dis(what, phase, fmt.Sprintf("%s run, unit %q: handler %d got %d start and %d end/error callbacks (every started unit must be finished exactly once): %v",
@@ -800,7 +824,7 @@ func c10xOne(ctx *vh.Ctx, c *c10xCase) error {
 				continue
 			}
 			if cl := c10DiffClass(c10ModelUnit{Info: mu.Info, Ev: mu.Ev, Handlers: mu.Handlers}, c.Globals, im.Units[mu.Info]); cl != "" {
-				if cl == "missing-callback" && mu.Intr && c10xOnlyErrorsMissing(mu.Ev, im.Units[mu.Info]) {
+				if cl == "missing-callback" && mu.Intr && phase != "refused-resume" && c10xOnlyErrorsMissing(mu.Ev, im.Units[mu.Info]) {
 					// the same observable as (1), seen through handlers with a timing filter
 					cl = "unpaired-on-interrupt"
 				}
@@ -977,6 +1001,16 @@ func c10xGen(r *vh.Rand, family string) *c10xCase {
 		sh[i] = c.Opts[j]
 	}
 	c.Opts = sh
+	// the resume is refused while the checkpoint is being restored: for the called graph, or for
+	// a nested graph that interrupted
+	if c10xAnyIntr(c.Nodes) && r.Chance(18) {
+		c.ResumeFail = "top"
+		for _, n := range c.Nodes {
+			if n.LK == "graph" && c10xAnyIntr(n.Inner) && r.Chance(60) {
+				c.ResumeFail = n.Key
+			}
+		}
+	}
 	return c
 }
 
@@ -997,6 +1031,12 @@ func c10xFixed() []any {
 		// callback-enabled tools: invokable alone, streamable next to an ordinary tool
 		out = append(out, mk("cbtool", "pregel", p, c10xNode{Key: "T", LK: "tools", Tools: []c10xTool{{Key: "t1", TK: "inv", CB: true}}}))
 		out = append(out, mk("cbtool", "dag", p, c10xNode{Key: "T", LK: "tools", Tools: []c10xTool{{Key: "t1", TK: "str", CB: true}, {Key: "t2", TK: "both"}}}, c10xNode{Key: "B", LK: "i"}))
+		// the resume is refused by the caller's state modifier: for the called graph, for the nested graph
+		top := mk("intr", "pregel", p, c10xNode{Key: "A", LK: "i", Intr: 1}, c10xNode{Key: "B", LK: "i"}).(*c10xCase)
+		top.ResumeFail = "top"
+		sub := mk("intr", "dag", p, c10xNode{Key: "S", LK: "graph", Inner: []c10xNode{{Key: "X", LK: "i", Intr: 1}}}, c10xNode{Key: "B", LK: "i", Intr: 1}).(*c10xCase)
+		sub.ResumeFail = "S"
+		out = append(out, top, sub)
 	}
 	return out
 }
